@@ -17,14 +17,14 @@
 EXTENDS Integers, Sequences, FiniteSets, TLC
 CONSTANTS Target        \* "size" (u64 bytes) | "interval" (i64 count of a named unit)
 
-\* ---- numbers: [t |-> "pow", k, d] = 2^k + d ; [t |-> "small", n] ; [t |-> "huge"] = 20 nines ; [t |-> "lz", n] = "00" n
+\* ---- numbers: [t |-> "pow", k, d] = 2^k + d ; [t |-> "small", n] ; [t |-> "huge"] = 20 nines ; [t |-> "lz", n] = "00" n ; [t |-> "lzz", n] = twenty zeros and n (more digits than any 64-bit number has, the value is n)
 PowNums == [t : {"pow"}, k : 0..64, d : {-1, 0, 1}, n : {0}]
 \* [t |-> "sp", n] = the digits of n with a blank after the first one ("1 0", "1 024"): not a number
-SmallNums == [t : {"small", "lz"}, k : {0}, d : {0}, n : {0, 1, 7, 1024}] \cup {[t |-> "huge", k |-> 0, d |-> 0, n |-> 0]}
+SmallNums == [t : {"small", "lz", "lzz"}, k : {0}, d : {0}, n : {0, 1, 7, 1024}] \cup {[t |-> "huge", k |-> 0, d |-> 0, n |-> 0]}
              \cup [t : {"sp"}, k : {0}, d : {0}, n : {10, 1024}]
 \* number < 2^bits ?   (bits = 64 for sizes / unsigned scalars, 63 for intervals)
 FitsBits(num, shift, bits) ==
-  CASE num.t \in {"small", "lz", "sp"} -> TRUE                    \* at most 1024 * 2^40
+  CASE num.t \in {"small", "lz", "lzz", "sp"} -> TRUE                    \* at most 1024 * 2^40
     [] num.t = "huge" -> FALSE
     [] OTHER -> IF num.k = 0 THEN TRUE                       \* 0, 1, 2
                 ELSE (num.k + shift < bits) \/ (num.k + shift = bits /\ num.d = -1)
@@ -60,7 +60,7 @@ Bits == IF Target = "size" THEN 64 ELSE 63
 \* ---- literals
 Lit == [form : {"int", "str"}, lead : {"", " ", "-"}, num : PowNums \cup SmallNums, frac : BOOLEAN,
         ws : {"", " ", "   "}, unit : {""} \cup SizeUnits \cup IntervalUnits \cup JunkUnits \cup LongJunk, trail : {"", " "}]
-WellShapedInt(l) == l.form = "int" /\ l.frac = FALSE /\ l.ws = "" /\ l.unit = "" /\ l.trail = "" /\ l.lead \in {"", "-"} /\ l.num.t \notin {"lz", "sp"}
+WellShapedInt(l) == l.form = "int" /\ l.frac = FALSE /\ l.ws = "" /\ l.unit = "" /\ l.trail = "" /\ l.lead \in {"", "-"} /\ l.num.t \notin {"lz", "lzz", "sp"}
 \* the verdict: [ok, shift, unit]
 Decide(l) ==
   IF l.form = "int"
@@ -81,7 +81,7 @@ MaxPow(u) == CASE u = "second" -> 34 [] u = "minute" -> 28 [] u = "hour" -> 23 [
 MaxSmall(u) == CASE u = "year" -> 1000 [] OTHER -> 1024       \* the small numbers are at most 1024
 InTriggerRange(num, u) ==
   CASE num.t = "pow" -> (num.k <= MaxPow(u)) /\ ~(num.k = 0 /\ num.d = -1)          \* 2^0 - 1 = 0
-    [] num.t \in {"small", "lz"} -> num.n >= 1 /\ num.n <= MaxSmall(u)
+    [] num.t \in {"small", "lz", "lzz"} -> num.n >= 1 /\ num.n <= MaxSmall(u)
     [] OTHER -> FALSE
 TriggerOk(l) == Target = "interval" /\ Decide(l).ok /\ InTriggerRange(l.num, Decide(l).unit)
 
